@@ -227,6 +227,8 @@ def run_cases(ctx, bld, cases, alarm):
            "BN_DRV_ALARM": str(alarm)}
     res = common.batch_run(bld.exe, lines, timeout=1800, env=env)
     evs = []
+    byop = ctx.cov.setdefault("calls_by_operation", {})
+    for c in cases: byop[c["op"]] = byop.get(c["op"], 0) + 1
     for i, (c, ln, a) in enumerate(zip(cases, lines, res)):
         ev = {"id": i, "op": c["op"], "al": c["al"], "w": bld.w, "maxd": bld.maxd, "ca": c["ca"], "cb": c["cb"],
               "cm": c["cm"], "cr": c["cr"], "k": c["k"], "k2": c["k2"], "a": limbs(c["a"]), "b": limbs(c["b"]),
@@ -242,6 +244,10 @@ def run_cases(ctx, bld, cases, alarm):
         evs.append(ev)
     return evs
 
+# appended to every judged file: a fabricated wrong outcome that TLC must reject (guards against a vacuous judge)
+CANARY = {"op": "mult", "al": "sep", "w": 8, "maxd": 8, "ca": 2, "cb": 1, "cm": 1, "cr": 1, "k": 0, "k2": 0, "a": [3], "b": [5], "m": [],
+          "xin": [], "rc": 0, "c": 0, "cnt": 2, "nz": 1, "n": 0, "n2": 0, "r": [16], "r2": [], "xs": []}
+
 def judge(ctx, label, evs, cfg, chunk=40000):
     """TLC judges every event; returns list of (event, why, shape)"""
     ws = common.tlc_workspace()
@@ -253,6 +259,7 @@ def judge(ctx, label, evs, cfg, chunk=40000):
             for j, ev in enumerate(chunks[ix]):
                 ev["id"] = j
                 f.write(json.dumps({k: v for k, v in ev.items() if not k.startswith("_")}, separators=(",", ":")) + "\n")
+            f.write(json.dumps(dict(CANARY, id=len(chunks[ix])), separators=(",", ":")) + "\n")
         r = common.tlc("TraceBn", cfg=cfg, workers=1, env={"TRACE": path}, timeout=3000, xss="512m", xmx="4g")
         os.unlink(path)
         if r.rc != 0:
@@ -260,9 +267,13 @@ def judge(ctx, label, evs, cfg, chunk=40000):
                                % (label, ix, r.violation, r.out[-3000:]))
         printed = common.tlc_printed_json(r.out)
         rec = [p for p in printed if "validated" in p]
-        if not rec or rec[-1]["validated"] != len(chunks[ix]):
+        if not rec or rec[-1]["validated"] != len(chunks[ix]) + 1:
             raise common.Infra("TraceBn receipt missing/short for %s chunk %d:\n%s" % (label, ix, r.out[-2000:]))
-        return r, rec[-1], [(chunks[ix][p["reject"]], p["why"], p["shape"]) for p in printed if "reject" in p]
+        rejs = [p for p in printed if "reject" in p]
+        if not any(p["reject"] == len(chunks[ix]) and p["why"] == "success-with-wrong-value" for p in rejs):
+            raise common.Infra("TraceBn accepted the deliberately wrong canary call (3*5=16): the judge is vacuous\n" + r.out[-2000:])
+        rec[-1]["validated"] -= 1
+        return r, rec[-1], [(chunks[ix][p["reject"]], p["why"], p["shape"]) for p in rejs if p["reject"] < len(chunks[ix])]
     rej = []
     with cf.ThreadPoolExecutor(max_workers=4) as ex:
         for r, rec, rj in ex.map(one, range(len(chunks))):
